@@ -528,7 +528,7 @@ where T: domain::base::wire::Composer + AsRef<[u8]> + AsMut<[u8]> + domain::dep:
 }
 
 /// new builder; returns (bytes, per-op success)
-fn build_new(ops: &[Op], bufsize: usize) -> (Vec<u8>, Vec<bool>) {
+fn build_new(ops: &[Op], bufsize: usize, rev: bool) -> (Vec<u8>, Vec<bool>) {
     let mut buffer = vec![0u8; bufsize];
     let mut comp = NameCompressor::default();
     let mut b = MessageBuilder::new(&mut buffer, &mut comp, U16::new(0x1234), HeaderFlags::default());
@@ -537,7 +537,8 @@ fn build_new(ops: &[Op], bufsize: usize) -> (Vec<u8>, Vec<bool>) {
         let ok = match op {
             Op::Q(n, t) => {
                 let w = wire(n); let name: &Name = <&Name>::parse_bytes(&w).unwrap();
-                b.push_question(&Question::<&Name> { qname: name, qtype: QType { code: U16::new(*t) }, qclass: QClass::IN }).is_ok()
+                if rev { b.push_question(&Question::<RevNameBuf> { qname: RevNameBuf::parse_bytes(&w).unwrap(), qtype: QType { code: U16::new(*t) }, qclass: QClass::IN }).is_ok() }
+                else { b.push_question(&Question::<&Name> { qname: name, qtype: QType { code: U16::new(*t) }, qclass: QClass::IN }).is_ok() }
             }
             Op::R(s, n, ttl, rd) => {
                 let w = wire(n); let name: &Name = <&Name>::parse_bytes(&w).unwrap();
@@ -550,6 +551,8 @@ fn build_new(ops: &[Op], bufsize: usize) -> (Vec<u8>, Vec<bool>) {
                         let rdata: &UnparsedRecordData = unsafe { UnparsedRecordData::new_unchecked(&raw) };
                         push!(&Record::<&Name, &UnparsedRecordData> { rname: name, rtype: RType { code: U16::new(RAW_TYPE) }, rclass: RClass::IN, ttl, rdata })
                     }
+                    Rd::A(o) if rev => push!(&Record::<RevNameBuf, RecordData<'_, &Name>> { rname: RevNameBuf::parse_bytes(&w).unwrap(), rtype: RType::A, rclass: RClass::IN, ttl, rdata: RecordData::A(A { octets: *o }) }),
+                    Rd::Ns(_) if rev => push!(&Record::<RevNameBuf, RecordData<'_, &Name>> { rname: RevNameBuf::parse_bytes(&w).unwrap(), rtype: RType::NS, rclass: RClass::IN, ttl, rdata: RecordData::Ns(Ns { server: xn }) }),
                     Rd::A(o) => push!(&Record::<&Name, RecordData<'_, &Name>> { rname: name, rtype: RType::A, rclass: RClass::IN, ttl, rdata: RecordData::A(A { octets: *o }) }),
                     Rd::Ns(_) => push!(&Record::<&Name, RecordData<'_, &Name>> { rname: name, rtype: RType::NS, rclass: RClass::IN, ttl, rdata: RecordData::Ns(Ns { server: xn }) }),
                     Rd::CName(_) => push!(&Record::<&Name, RecordData<'_, &Name>> { rname: name, rtype: RType::CNAME, rclass: RClass::IN, ttl, rdata: RecordData::CName(CName { name: xn }) }),
@@ -688,21 +691,23 @@ fn run_script(cx: &mut Ctx, ops: &[Op], kind: &str, bufsize: usize, with_old: bo
             }
         }
     }
+    for (nm, rev) in [("new", false), ("new_rev", true)] {
     let opsv = ops.to_vec();
-    match catch(move || build_new(&opsv, bufsize)) {
+    match catch(move || build_new(&opsv, bufsize, rev)) {
         Ok((b, okv)) => {
             let w: Vec<Item> = want.iter().zip(okv.iter()).filter(|(_, ok)| **ok).map(|(i, _)| i.clone()).collect();
             if with_old { cx.verdict(okv.iter().all(|x| *x), "new_builder_rejects_script", &tag, &format!("{:?}", okv)); }
-            outputs.push(("new", b, w));
+            outputs.push((nm, b, w));
         }
         Err(p) => {
             let cls = if p.contains("overflow") { "new_compressor_pointer_overflow" } else if p.contains("did not correspond") { "new_builder_stale_compressor_panic" }
                 else if p.contains("valid last label") { "new_compressor_label_boundary_panic" } else { "panic_new_builder" };
-            cx.verdict(false, cls, &tag, &p);
+            cx.verdict(false, cls, &tag, &format!("{}: {}", nm, p));
         }
     }
+    }
     for (nm, bytes, want) in &outputs {
-        let is_new = *nm == "new";
+        let is_new = nm.starts_with("new");
         let b1 = bytes.clone(); let b2 = bytes.clone();
         let ro = catch(move || read_old(&b1)); let rn = catch(move || read_new(&b2));
         for (reader, r) in [("old", ro), ("new", rn)] {
@@ -713,7 +718,9 @@ fn run_script(cx: &mut Ctx, ops: &[Op], kind: &str, bufsize: usize, with_old: bo
                 Ok(Err(e)) => cx.verdict(false, if is_new { "new_compressor_bad_pointer" } else { "built_old_unreadable" }, &tag, &format!("{}: {} :: {}", ctx, e, dump)),
                 Ok(Ok(items)) => {
                     let ok = &items == want;
-                    let cls = if is_new { "new_compressor_bad_pointer".to_string() } else { format!("built_old_read_{}_mismatch", reader) };
+                    // a difference confined to names (owner / name-bearing RDATA) is the compressor's
+                    let names_only = items.len() == want.len() && items.iter().zip(want.iter()).all(|(a, b)| a.0 == b.0 && a.2 == b.2 && a.3 == b.3 && (a.4 == b.4 || [2u16, 5, 15].contains(&a.2)));
+                    let cls = if is_new && names_only { "new_compressor_bad_pointer".to_string() } else if is_new { format!("built_new_read_{}_mismatch", reader) } else { format!("built_old_read_{}_mismatch", reader) };
                     cx.verdict(ok, &cls, &tag, &format!("{}: {} :: {}", ctx, first_diff(want, &items), dump));
                 }
             }
@@ -807,7 +814,7 @@ fn main() {
     for _ in 0..60 * scale {
         let ops = gen_script(&mut rng, None);
         let opsv = ops.clone();
-        if let Ok((b, _)) = catch(move || build_new(&opsv, 2000)) {
+        if let Ok((b, _)) = catch(move || build_new(&opsv, 2000, false)) {
             if b.len() <= 300 { for p in 12..b.len() { cx.name_case(&b, p, "built-new", false); } cx.message_case(&b); }
         }
         if let Ok(Ok(b)) = catch(|| build_old(TreeCompressor::new(Vec::new()), &ops)) {
